@@ -92,6 +92,7 @@ def run(H, tier, rng):
             check_minpoint(H, name, pts, rng)
 
 
-Harness("C06", "curve families (incl. exactly repeated bumps = ties in the ordering score, and a 40-point hyperbola) x 2 distances x 3 orderings "
-        "x 5 metrics x thresholds taken from the actual global costs of the fixed-size sequence (boundary values) x min_points; oracle: the "
-        "fixed-size sequence S_k from rdp_fixed and the global cost of each member evaluated with a fresh cache", "n <= 9 (+ extras up to 40) quick / 15 thorough").main(run)
+if __name__ == "__main__":
+    Harness("C06", "curve families (incl. exactly repeated bumps = ties in the ordering score, and a 40-point hyperbola) x 2 distances x 3 orderings "
+            "x 5 metrics x thresholds taken from the actual global costs of the fixed-size sequence (boundary values) x min_points; oracle: the "
+            "fixed-size sequence S_k from rdp_fixed and the global cost of each member evaluated with a fresh cache", "n <= 9 (+ extras up to 40) quick / 15 thorough").main(run)
